@@ -124,10 +124,11 @@ OuterSyncLoop:
 
 			// Bump our sync, and march forward
 
-			d.Sync.Synced++
-			err = d.Pegnet.InsertSynced(tx, d.Sync)
+			// The in-memory height is what the API reports: it only moves once
+			// the block is committed.
+			synced := &pegnet.BlockSync{Synced: d.Sync.Synced + 1}
+			err = d.Pegnet.InsertSynced(tx, synced)
 			if err != nil {
-				d.Sync.Synced--
 				hLog.WithError(err).Errorf("unable to update synced metadata")
 				err = tx.Rollback()
 				if err != nil {
@@ -139,13 +140,14 @@ OuterSyncLoop:
 
 			err = tx.Commit()
 			if err != nil {
-				d.Sync.Synced--
 				hLog.WithError(err).Errorf("unable to commit transaction")
 				err = tx.Rollback()
 				if err != nil {
 					// TODO evaluate if we can recover from this point or not
 					hLog.WithError(err).Fatal("unable to roll back transaction")
 				}
+			} else {
+				d.Sync.Synced = synced.Synced
 			}
 
 			elapsed := time.Since(start)
